@@ -97,6 +97,8 @@ OPC = {
     'bloom': {'new': 0, 'ins': 2, 'q': 3, 'union': 4, 'clear': 5, 'clone': 6, 'obs': 7, 'empty': 9},
     'cms': {'new': 0, 'add': 2, 'q': 3, 'merge': 4, 'clear': 5, 'clone': 6, 'obs': 7, 'empty': 9},
     'hll': {'new': 0, 'fromregs': 1, 'addh': 2, 'add': 3, 'merge': 4, 'clear': 5, 'clone': 6, 'regs': 7, 'empty': 9},
+    'cuckoo': {'new': 0, 'ins': 2, 'q': 3, 'union': 4, 'clear': 5, 'clone': 6, 'obs': 7, 'del': 8, 'dobs': 10},
+    'qf': {'new': 0, 'ins': 2, 'q': 3, 'union': 4, 'clear': 5, 'clone': 6, 'obs': 7},
 }
 
 def translate_ops(case, aux):
@@ -108,6 +110,10 @@ def translate_ops(case, aux):
         if r is None:
             continue
         name, args = op[0], op[1:]
+        if name == 'props' and case.st == 'cuckoo' and res != ['panic']:
+            aux.append((case, k, op, res))
+            out.append(ol(0, [args[0], res[0], res[1], res[2]], [], '(Some [])'))
+            continue
         if name == 'props' and case.st in ('bloom', 'cms') and res != ['panic']:
             # sizing is a float computation: checked by the sizing model (aux); the discrete model
             # continues from the parameters the constructor chose
@@ -123,7 +129,7 @@ def translate_ops(case, aux):
 def case_term(case, aux):
     ops = '[' + ';\n    '.join(translate_ops(case, aux)) + ']'
     u = int(case.cfg.get('u', 8))
-    if case.st == 'bloom':
+    if case.st in ('bloom', 'cuckoo', 'qf'):
         return '(%s, %d, %s)' % (hlog(case), u, ops)
     if case.st == 'cms':
         return '(%s, %d, %d, %s)' % (hlog(case), u, CMAX[case.cfg.get('ctype', 'usize')], ops)
@@ -131,7 +137,7 @@ def case_term(case, aux):
         return '(%s, %s)' % (hlog(case), ops)
     raise KeyError(case.st)
 
-EXMOD = {'bloom': ('ExBloom', 'bloom_check'), 'cms': ('ExCms', 'cms_check'), 'hll': ('ExHll', 'hll_check')}
+EXMOD = {'cuckoo': ('ExCuckoo', 'ck_check'), 'qf': ('ExQuotient', 'qf_check'), 'bloom': ('ExBloom', 'bloom_check'), 'cms': ('ExCms', 'cms_check'), 'hll': ('ExHll', 'hll_check')}
 
 def write_cases_v(path, st, cases, aux):
     mod, chk = EXMOD[st]
